@@ -26,6 +26,10 @@ TEMPLATES = {
     # a fixed notice on top of the loops: the header holds more than was requested
     "extra-notice": ("{% for copyright_line in copyright_lines %}\n{{ copyright_line }}\n{% endfor %}\nSPDX-FileCopyrightText: 2019 Example Org\n\n"
                      "{% for expression in spdx_expressions %}\nSPDX-License-Identifier: {{ expression }}\n{% endfor %}\n"),
+    # boilerplate that mentions "Copyright" wrapped into an ignore block, the documented way to keep it from being read as a notice
+    "ignore-block": ("{% for copyright_line in copyright_lines %}\n{{ copyright_line }}\n{% endfor %}\n\n"
+                     "{% for expression in spdx_expressions %}\nSPDX-License-Identifier: {{ expression }}\n{% endfor %}\n\n"
+                     "REUSE-IgnoreStart\nPart of Foo. Copyright is held by the contributors, see AUTHORS.\nREUSE-IgnoreEnd\n"),
     # templates that cannot be loaded or rendered at all
     "broken-syntax": "{% for x in %}\n", "broken-unclosed": "{% for c in copyright_lines %}\n{{ c }}\n", "broken-filter": "{{ copyright_lines | nosuchfilter }}\n",
     "broken-undefined": "{{ nosuch.attr }}\n", "broken-div0": "{{ 1 // 0 }}\n", "broken-include": "{% include 'nope.jinja2' %}\n",
